@@ -369,6 +369,12 @@ pub fn compile(path: &Path, src: &str) -> Result<Compilation, CompilationError> 
     if diagnostics.has_errors() {
         return Err(CompilationError::Compile { diagnostics });
     }
+    // The Go back end always emits `func main() { main0() }`; `link` makes the same check.
+    if !core.toplevels.iter().any(|f| f.name == "main") {
+        return Err(compile_error(
+            "Main package missing main function".to_string(),
+        ));
+    }
     let (mono, monoenv) = mono::mono(genv.clone(), core.clone());
     let (lifted_core, liftenv) = lift::lambda_lift(monoenv.clone(), &gensym, mono.clone());
     let (anf, anfenv) = anf::anf_file(liftenv.clone(), &gensym, lifted_core.clone());
